@@ -1,8 +1,823 @@
-//! C20 — not implemented yet
-use vcore::{Args, Check};
+//! C20 — "A signer signs each beacon once with its epoch key, acceptably to aggregators".
+//!
+//! Stateful exploration of the real signer (see world.rs) against a scripted, recording fake aggregator
+//! (see fakeagg.rs). The oracle (see `judge`) recomputes — with protocol offsets hard-coded in the harness — the
+//! signer set, stakes and protocol parameters an aggregator uses for every epoch from the registrations it
+//! acknowledged, and checks the four clauses of the statement on the recorded traffic.
+use std::collections::BTreeMap;
+use std::path::PathBuf;
+use std::sync::OnceLock;
+
+use proptest::prelude::*;
+use serde::{Deserialize, Serialize};
+
+use mithril_common::crypto_helper::ProtocolAggregateVerificationKeyForConcatenation;
+use mithril_common::entities::{
+    ProtocolMessagePartKey, ProtocolParameters, SignedEntityType, Signer, SignerWithStake, SingleSignature,
+    SingleSignatureAuthenticationStatus,
+};
+use mithril_common::messages::SignedEntityTypeMessage;
+use mithril_common::protocol::{SignerBuilder, ToMessage};
+use mithril_common::test::builder::{MithrilFixtureBuilder, StakeDistributionGenerationMethod};
+use mithril_signer::SignerState;
+
+use vcore::util::Scratch;
+use vcore::{Args, Check, Report};
+
+use crate::fakeagg::{self, AggState, REG_TO_SIGNING};
+use crate::world::Env;
+
+// ------------------------------------------------------------------------------------------------ case
+
+#[derive(Debug, Clone, PartialEq, Serialize, Deserialize)]
+pub enum Op {
+    /// one cycle of the signer state machine
+    Tick,
+    /// the chain produces new immutable files / blocks (new beacons)
+    ChainUp { immutables: u8, blocks: u8 },
+    /// the aggregator answers the next n requests (any route) with 503 without processing them
+    AggDown(u8),
+    /// the aggregator has not noticed the epoch change: its next n /epoch-settings answers are those of epoch e-1
+    StaleEpochSettings(u8),
+    /// the next n /register-signer requests are answered 550 "registration round not yet opened"
+    RoundClosed(u8),
+    /// the other signers selected by the bit mask register with the aggregator now
+    OthersRegister(u8),
+    /// the next n /register-signatures requests fail with 500
+    PublishFail(u8),
+    /// the signer process is restarted: new in-memory state (state machine in Init), same stores on disk
+    Restart,
+}
+
+impl Op {
+    fn kind(&self) -> String {
+        match self {
+            Op::Tick => "T".into(),
+            Op::ChainUp { immutables, blocks } => {
+                format!("C{}{}", if *immutables > 0 { "i" } else { "" }, if *blocks > 0 { "b" } else { "" })
+            }
+            Op::AggDown(n) => format!("D{n}"),
+            Op::StaleEpochSettings(n) => format!("S{n}"),
+            Op::RoundClosed(n) => format!("O{n}"),
+            Op::OthersRegister(m) => format!("G{m}"),
+            Op::PublishFail(n) => format!("P{n}"),
+            Op::Restart => "R".into(),
+        }
+    }
+    fn is_fault(&self) -> bool {
+        matches!(self, Op::AggDown(_) | Op::StaleEpochSettings(_) | Op::RoundClosed(_) | Op::PublishFail(_))
+    }
+}
+
+#[derive(Debug, Clone, Serialize, Deserialize)]
+pub struct Case {
+    /// chain epoch at the start of the history
+    pub start_epoch: u8,
+    /// varies stakes and protocol parameters per epoch
+    pub salt: u8,
+    /// ops executed inside each epoch; the chain moves to the next epoch between two entries
+    pub epochs: Vec<Vec<Op>>,
+}
+
+const OTHERS: usize = 3;
+const MAX_OPS: usize = 40;
+
+fn op_strategy() -> impl Strategy<Value = Op> {
+    prop_oneof![
+        30 => Just(Op::Tick),
+        5 => (0u8..=2, prop_oneof![Just(0u8), Just(20u8), Just(45u8)])
+            .prop_map(|(immutables, blocks)| Op::ChainUp { immutables, blocks }),
+        3 => (1u8..=9).prop_map(Op::AggDown),
+        2 => (1u8..=3).prop_map(Op::StaleEpochSettings),
+        2 => (1u8..=3).prop_map(Op::RoundClosed),
+        4 => (1u8..(1 << OTHERS)).prop_map(Op::OthersRegister),
+        3 => (1u8..=4).prop_map(Op::PublishFail),
+        4 => Just(Op::Restart),
+    ]
+}
+
+fn case_strategy() -> impl Strategy<Value = Case> {
+    (1u8..=5, any::<u8>(), prop::collection::vec(prop::collection::vec(op_strategy(), 2..=9), 3..=6)).prop_map(
+        |(start_epoch, salt, mut epochs)| {
+            // bound the history to MAX_OPS ops (epoch changes included)
+            let mut budget = MAX_OPS;
+            for ops in epochs.iter_mut() {
+                budget = budget.saturating_sub(1);
+                ops.truncate(budget.max(1));
+                budget = budget.saturating_sub(ops.len());
+            }
+            Case { start_epoch, salt, epochs }
+        },
+    )
+}
+
+// ------------------------------------------------------------------------------------------------ fixtures
+
+struct Fixture {
+    /// index 0 is the signer under test, the others only register (with their fixed fixture keys)
+    signers: Vec<SignerWithStake>,
+    sut_kes_dir: PathBuf,
+}
+
+static FIXTURE: OnceLock<Fixture> = OnceLock::new();
+
+/// Deterministic crypto material from the repository's fixtures (KES keys + operational certificates are written
+/// once, before any case runs, below $TMPDIR and only read afterwards).
+fn fixture() -> &'static Fixture {
+    FIXTURE.get_or_init(|| {
+        let fx = MithrilFixtureBuilder::default()
+            .with_signers(1 + OTHERS)
+            .with_protocol_parameters(ProtocolParameters { k: 2, m: 6, phi_f: 1.0 })
+            .with_stake_distribution(StakeDistributionGenerationMethod::Uniform(100))
+            .build();
+        let sut_kes_dir = fx.signers_fixture()[0]
+            .kes_secret_key_path()
+            .expect("certified fixture")
+            .parent()
+            .unwrap()
+            .to_path_buf();
+        Fixture { signers: fx.signers_with_stake(), sut_kes_dir }
+    })
+}
+
+/// stake of signer `idx` as reported by the chain during `epoch` (changes every epoch so that a stake
+/// distribution taken from the wrong epoch yields another aggregate verification key)
+fn stake_of(salt: u8, epoch: u64, idx: usize) -> u64 {
+    100 + ((salt as u64 + 7 * epoch + 13 * idx as u64) % 50) * 10
+}
+
+fn stakes_for_epoch(salt: u8, epoch: u64) -> Vec<SignerWithStake> {
+    fixture()
+        .signers
+        .iter()
+        .enumerate()
+        .map(|(i, s)| SignerWithStake { stake: stake_of(salt, epoch, i), ..s.clone() })
+        .collect()
+}
+
+// ------------------------------------------------------------------------------------------------ execution
+
+#[derive(Default, Debug)]
+struct RunInfo {
+    /// epochs the history went through (first..=last), including the epilogue
+    first_epoch: u64,
+    last_generated_epoch: u64,
+    final_epoch: u64,
+    restarts: u32,
+    ticks: u32,
+    keep_state_errors: u32,
+    critical_errors: Vec<String>,
+    harness_errors: Vec<String>,
+    /// (step, state after the tick)
+    states: Vec<(u32, String)>,
+    restart_in_state: Vec<String>,
+    /// beacon that must be signed after the final restart: (epoch, immutable file number)
+    final_beacon: Option<(u64, u64)>,
+    final_restart_count: u32,
+    epilogue_first_step: u32,
+}
+
+struct World {
+    env: Env,
+    signer: Option<crate::world::SignerProc>,
+    info: RunInfo,
+    salt: u8,
+    step: u32,
+}
+
+impl World {
+    async fn set_epoch_stakes(&mut self, epoch: u64) {
+        let sws = stakes_for_epoch(self.salt, epoch);
+        let map: BTreeMap<String, u64> = sws.iter().map(|s| (s.party_id.clone(), s.stake)).collect();
+        self.env.set_stakes(sws).await;
+        self.env.agg.state.lock().unwrap().stakes.insert(epoch, map);
+    }
+
+    fn next_step(&mut self) {
+        self.step += 1;
+        self.env.agg.state.lock().unwrap().step = self.step;
+    }
+
+    async fn restart(&mut self) {
+        if let Some(s) = &self.signer {
+            self.info.restart_in_state.push(state_name(&s.state_machine.get_state().await));
+        }
+        self.signer = None; // drops the state machine, all services and the sqlite connections
+        self.info.restarts += 1;
+        self.env.agg.state.lock().unwrap().restarts = self.info.restarts;
+        match self.env.start_signer().await {
+            Ok(s) => self.signer = Some(s),
+            Err(e) => self.info.harness_errors.push(format!("restart failed: {e:?}")),
+        }
+    }
+
+    async fn tick(&mut self) {
+        self.info.ticks += 1;
+        let Some(signer) = &self.signer else { return };
+        match signer.state_machine.cycle().await {
+            Ok(()) => {}
+            Err(e) if e.is_critical() => {
+                // production: the process exits and is restarted by its supervisor
+                self.info.critical_errors.push(format!("step {}: {e:?}", self.step));
+                self.restart().await;
+                return;
+            }
+            Err(_) => self.info.keep_state_errors += 1,
+        }
+        let st = self.signer.as_ref().unwrap().state_machine.get_state().await;
+        self.info.states.push((self.step, state_name(&st)));
+    }
+
+    async fn epoch_up(&mut self) -> u64 {
+        let e = self.env.epoch_up().await;
+        self.set_epoch_stakes(e).await;
+        e
+    }
+
+    async fn apply(&mut self, op: &Op) {
+        self.next_step();
+        let t0 = std::time::Instant::now();
+        self.apply_inner(op).await;
+        if std::env::var_os("C20_TRACE").is_some() {
+            let st = match &self.signer {
+                Some(s) => state_name(&s.state_machine.get_state().await),
+                None => "-".into(),
+            };
+            eprintln!("step {:3} {:?} -> {} ({:.1} ms)", self.step, op, st, t0.elapsed().as_secs_f64() * 1e3);
+        }
+    }
+
+    async fn apply_inner(&mut self, op: &Op) {
+        match op {
+            Op::Tick => self.tick().await,
+            Op::ChainUp { immutables, blocks } => self.env.chain_up(*immutables as u64, *blocks as u64).await,
+            Op::AggDown(n) => self.env.agg.state.lock().unwrap().down_left = *n as u32,
+            Op::StaleEpochSettings(n) => self.env.agg.state.lock().unwrap().stale_left = *n as u32,
+            Op::RoundClosed(n) => self.env.agg.state.lock().unwrap().round_closed_left = *n as u32,
+            Op::PublishFail(n) => self.env.agg.state.lock().unwrap().publish_fail_left = *n as u32,
+            Op::OthersRegister(mask) => {
+                let mut st = self.env.agg.state.lock().unwrap();
+                for i in 0..OTHERS {
+                    if mask & (1 << i) != 0 {
+                        let signer: Signer = fixture().signers[1 + i].clone().into();
+                        st.register_other(signer);
+                    }
+                }
+            }
+            Op::Restart => self.restart().await,
+        }
+    }
+}
+
+fn state_name(s: &SignerState) -> String {
+    match s {
+        SignerState::Init => "Init".into(),
+        SignerState::Unregistered { .. } => "Unregistered".into(),
+        SignerState::ReadyToSign { .. } => "ReadyToSign".into(),
+        SignerState::RegisteredNotAbleToSign { .. } => "RegisteredNotAbleToSign".into(),
+    }
+}
+
+fn sut_registered_during(st: &AggState, epoch: i64) -> bool {
+    st.registered_during(epoch).iter().any(|r| r.from_sut)
+}
+
+/// Runs the history + the bounded-progress epilogue; returns the aggregator's records.
+fn execute(case: &Case) -> Result<(AggState, RunInfo), String> {
+    let rt = tokio::runtime::Builder::new_current_thread().enable_all().build().map_err(|e| e.to_string())?;
+    let scratch = Scratch::new("c20");
+    let fx = fixture();
+    let result = rt.block_on(async {
+        let start_epoch = case.start_epoch as u64;
+        let env = Env::new(scratch.path(), &fx.signers[0], start_epoch, case.salt, &fx.sut_kes_dir)
+            .await
+            .map_err(|e| format!("env: {e:?}"))?;
+        let mut w = World { env, signer: None, info: RunInfo::default(), salt: case.salt, step: 0 };
+        w.info.first_epoch = start_epoch;
+        w.set_epoch_stakes(start_epoch).await;
+        w.signer = Some(w.env.start_signer().await.map_err(|e| format!("start: {e:?}"))?);
+
+        let mut epoch = start_epoch;
+        for (i, ops) in case.epochs.iter().enumerate() {
+            if i > 0 {
+                w.next_step();
+                epoch = w.epoch_up().await;
+            }
+            for op in ops {
+                w.apply(op).await;
+            }
+        }
+        w.info.last_generated_epoch = epoch;
+
+        // ---- epilogue (clause d): heal, reach an epoch in which the model says the signer can sign, restart,
+        // healthy ticks, a new beacon, healthy ticks ----
+        w.info.epilogue_first_step = w.step + 1;
+        w.env.agg.state.lock().unwrap().heal();
+        for _ in 0..3 {
+            let (has_cur, has_next) = {
+                let st = w.env.agg.state.lock().unwrap();
+                (
+                    sut_registered_during(&st, epoch as i64 - REG_TO_SIGNING as i64),
+                    sut_registered_during(&st, epoch as i64 + 1 - REG_TO_SIGNING as i64),
+                )
+            };
+            if has_cur && has_next {
+                break;
+            }
+            // healthy ticks so that the signer registers in this epoch, then next epoch
+            for _ in 0..4 {
+                w.apply(&Op::Tick).await;
+            }
+            w.next_step();
+            epoch = w.epoch_up().await;
+        }
+        w.apply(&Op::Restart).await;
+        w.info.final_restart_count = w.info.restarts;
+        for _ in 0..8 {
+            w.apply(&Op::Tick).await;
+        }
+        w.apply(&Op::ChainUp { immutables: 1, blocks: 0 }).await;
+        w.info.final_beacon = Some((epoch, w.env.immutable_number));
+        for _ in 0..4 {
+            w.apply(&Op::Tick).await;
+        }
+        w.info.final_epoch = epoch;
+
+        // clean shutdown: signer first (sqlite connections), then the aggregator task
+        w.signer = None;
+        let World { env, info, .. } = w;
+        let state = {
+            let mut guard = env.agg.state.lock().unwrap();
+            std::mem::replace(&mut *guard, AggState::new(0, String::new(), 0))
+        };
+        drop(env);
+        Ok::<_, String>((state, info))
+    });
+    drop(rt);
+    drop(scratch);
+    result
+}
+
+// ------------------------------------------------------------------------------------------------ oracle
+
+/// epoch in which an aggregator opens the message of this signed entity type (protocol description)
+fn signing_epoch_of(t: &SignedEntityType) -> u64 {
+    match t {
+        SignedEntityType::MithrilStakeDistribution(e) => e.0,
+        // the stake distribution of the epoch that just ended is signed during the following epoch
+        SignedEntityType::CardanoStakeDistribution(e) => e.0 + 1,
+        SignedEntityType::CardanoDatabase(b) => b.epoch.0,
+        SignedEntityType::CardanoTransactions(e, _) => e.0,
+        SignedEntityType::CardanoBlocksTransactions(e, _, _) => e.0,
+    }
+}
+
+fn encode_avk(signers: &[SignerWithStake], params: &ProtocolParameters) -> Result<String, String> {
+    let sb = SignerBuilder::new(signers, params).map_err(|e| format!("{e:?}"))?;
+    let avk: ProtocolAggregateVerificationKeyForConcatenation =
+        sb.compute_aggregate_verification_key().to_concatenation_aggregate_verification_key().to_owned().into();
+    avk.to_json_hex().map_err(|e| format!("{e:?}"))
+}
+
+struct Verdict {
+    violations: Vec<(String, String)>,
+    labels: Vec<String>,
+}
+
+fn judge(st: &AggState, info: &RunInfo) -> Verdict {
+    let mut v = Verdict { violations: vec![], labels: vec![] };
+    let sut = &st.sut_party;
+
+    // --- registrations sent by the signer: label = receipt epoch + 1 (an aggregator's open round rejects others)
+    for r in &st.reg_requests {
+        if let Some(label) = r.label_epoch {
+            if label != r.receipt_epoch + fakeagg::REG_LABEL {
+                v.violations.push((
+                    "registration-epoch-label".into(),
+                    format!(
+                        "step {}: signer registered with epoch label {label} while the chain is in epoch {} \
+                         (an aggregator's open round records for {})",
+                        r.step,
+                        r.receipt_epoch,
+                        r.receipt_epoch + 1
+                    ),
+                ));
+            }
+        }
+        if r.status == 400 {
+            v.violations.push((
+                "registration-invalid".into(),
+                format!("step {}: the signer's registration fails the aggregator's key registration: {}", r.step, r.note),
+            ));
+        }
+    }
+    // at most one acknowledged registration of the signer per round is expected; several are legal (last wins)
+    // but worth a label
+    for e in info.first_epoch..=info.final_epoch {
+        let n = st.registrations.iter().filter(|r| r.from_sut && r.receipt_epoch == e).count();
+        if n > 1 {
+            v.labels.push("sut-registered-twice-in-a-round".into());
+        }
+    }
+
+    // --- signatures
+    let mut acked: BTreeMap<String, Vec<u32>> = BTreeMap::new();
+    for r in &st.sig_requests {
+        let e = r.receipt_epoch;
+        let Some(msg) = &r.message else {
+            v.violations.push(("signature-undecodable".into(), format!("step {}: undecodable /register-signatures body", r.step)));
+            continue;
+        };
+        let SignedEntityTypeMessage::Known(set) = &msg.signed_entity_type else {
+            v.violations.push(("signature-unknown-entity".into(), format!("step {}: {:?}", r.step, msg.signed_entity_type)));
+            continue;
+        };
+        let set_key = format!("{set:?}");
+        if r.status == 201 {
+            acked.entry(set_key.clone()).or_default().push(r.step);
+        }
+        let ctx = format!("step {} chain epoch {e} {set_key} (status {})", r.step, r.status);
+
+        if &msg.party_id != sut {
+            v.violations.push(("signature-party".into(), format!("{ctx}: party id {} is not the signer's", msg.party_id)));
+        }
+        if signing_epoch_of(set) != e {
+            v.violations.push((
+                "beacon-epoch-mismatch".into(),
+                format!("{ctx}: beacon of signing epoch {} published while the chain is in epoch {e}", signing_epoch_of(set)),
+            ));
+            continue;
+        }
+
+        // (c) registration eligible for this epoch: acknowledged during e-2
+        let regs = st.registered_during(e as i64 - REG_TO_SIGNING as i64);
+        let Some(sut_reg) = regs.iter().find(|x| x.from_sut) else {
+            v.violations.push((
+                "c-signed-without-eligible-registration".into(),
+                format!("{ctx}: no registration of the signer was acknowledged during epoch {}", e as i64 - 2),
+            ));
+            continue;
+        };
+
+        // (b) acceptance by an aggregator that derived its signer set from the acknowledged registrations
+        let signers = st.signers_for_signing_epoch(e);
+        let params = st.params_for_signing_epoch(e).expect("e >= 2 here");
+        let sb = match SignerBuilder::new(&signers, &params) {
+            Ok(sb) => sb,
+            Err(err) => {
+                v.violations.push(("harness-model".into(), format!("{ctx}: model cannot build the signer set: {err:?}")));
+                continue;
+            }
+        };
+        let sig = match msg.signature.clone().try_into() {
+            Ok(s) => SingleSignature {
+                party_id: msg.party_id.clone(),
+                signature: s,
+                won_indexes: msg.won_indexes.clone(),
+                authentication_status: SingleSignatureAuthenticationStatus::Unauthenticated,
+            },
+            Err(err) => {
+                v.violations.push(("b-signature-undecodable".into(), format!("{ctx}: {err:?}")));
+                continue;
+            }
+        };
+        let Some(pm) = &r.protocol_message else {
+            v.violations.push(("harness-model".into(), format!("{ctx}: no protocol message captured")));
+            continue;
+        };
+        if pm.compute_hash() != msg.signed_message {
+            v.violations.push((
+                "b-signed-message-mismatch".into(),
+                format!("{ctx}: signed_message on the wire is not the hash of the protocol message"),
+            ));
+        }
+        // seed of the protocol message as the aggregator computes it for epoch e
+        let next_signers = st.signers_for_signing_epoch(e + 1);
+        let next_params = st.params_for_signing_epoch(e + 1).unwrap();
+        let expect_epoch = e.to_string();
+        if pm.get_message_part(&ProtocolMessagePartKey::CurrentEpoch) != Some(&expect_epoch) {
+            v.violations.push((
+                "b-message-current-epoch".into(),
+                format!("{ctx}: current_epoch part {:?}", pm.get_message_part(&ProtocolMessagePartKey::CurrentEpoch)),
+            ));
+        }
+        if pm.get_message_part(&ProtocolMessagePartKey::NextProtocolParameters) != Some(&next_params.compute_hash()) {
+            v.violations.push((
+                "b-message-next-protocol-parameters".into(),
+                format!("{ctx}: next_protocol_parameters part differs from the hash of {next_params:?}"),
+            ));
+        }
+        match encode_avk(&next_signers, &next_params) {
+            Ok(avk) => {
+                if pm.get_message_part(&ProtocolMessagePartKey::NextAggregateVerificationKey) != Some(&avk) {
+                    v.violations.push((
+                        "b-message-next-avk".into(),
+                        format!(
+                            "{ctx}: next_aggregate_verification_key part differs from the key derived from the {} \
+                             registrations acknowledged during epoch {}",
+                            next_signers.len(),
+                            e - 1
+                        ),
+                    ));
+                }
+            }
+            Err(err) => v.violations.push((
+                "b-message-next-avk".into(),
+                format!("{ctx}: an aggregator cannot derive the next signer set ({err}) but the signer signed"),
+            )),
+        }
+        // acceptance path of the aggregator
+        let ms = sb.build_multi_signer();
+        if let Err(err) = ms.verify_single_signature(pm, &sig) {
+            v.violations.push((
+                "b-signature-rejected".into(),
+                format!("{ctx}: rejected under the signer set derived from the registrations of epoch {}: {err:?}", e - 2),
+            ));
+            continue;
+        }
+        // ... and explicitly with the key the signer registered for this epoch
+        let stake = signers.iter().find(|s| &s.party_id == sut).map(|s| s.stake).unwrap_or(0);
+        let avk = sb.compute_aggregate_verification_key();
+        if let Err(err) = sig.to_protocol_signature().verify(
+            &params.clone().into(),
+            &sut_reg.signer.verification_key_for_concatenation.vk,
+            &stake,
+            &avk,
+            pm.to_message().as_bytes(),
+        ) {
+            v.violations.push((
+                "b-not-the-registered-key".into(),
+                format!("{ctx}: does not verify with the key registered during epoch {}: {err:?}", e - 2),
+            ));
+        }
+        v.labels.push(format!("verified:{}", discriminant(set)));
+        if r.restarts_before > 0 {
+            v.labels.push("verified-after-restart".into());
+        }
+    }
+
+    // (a) at most one acknowledged publication per signed entity type and beacon
+    for (k, steps) in &acked {
+        if steps.len() > 1 {
+            v.violations.push((
+                "a-duplicate-acknowledged-publication".into(),
+                format!("{k} acknowledged {} times (steps {:?})", steps.len(), steps),
+            ));
+        }
+    }
+
+    // (d) bounded progress after the final restart
+    if let Some((e, imm)) = info.final_beacon {
+        let want = format!("{:?}", SignedEntityType::CardanoDatabase(mithril_common::entities::CardanoDbBeacon::new(e, imm)));
+        let ok = st.sig_requests.iter().any(|r| {
+            r.status == 201
+                && r.restarts_before >= info.final_restart_count
+                && r.message.as_ref().is_some_and(|m| matches!(&m.signed_entity_type, SignedEntityTypeMessage::Known(t) if format!("{t:?}") == want))
+        });
+        if !ok {
+            let last_states: Vec<String> =
+                info.states.iter().rev().take(6).rev().map(|(s, n)| format!("{s}:{n}")).collect();
+            v.violations.push((
+                "d-no-signature-after-restart".into(),
+                format!(
+                    "healthy aggregator, registrations of the signer acknowledged during epochs {} and {}, restart, \
+                     12 cycles and the new beacon {want}: no acknowledged signature (last states {last_states:?}, \
+                     critical errors {:?})",
+                    e - 2,
+                    e - 1,
+                    info.critical_errors
+                ),
+            ));
+        }
+    }
+    v
+}
+
+fn discriminant(t: &SignedEntityType) -> &'static str {
+    match t {
+        SignedEntityType::MithrilStakeDistribution(_) => "MithrilStakeDistribution",
+        SignedEntityType::CardanoStakeDistribution(_) => "CardanoStakeDistribution",
+        SignedEntityType::CardanoDatabase(_) => "CardanoDatabase",
+        SignedEntityType::CardanoTransactions(_, _) => "CardanoTransactions",
+        SignedEntityType::CardanoBlocksTransactions(_, _, _) => "CardanoBlocksTransactions",
+    }
+}
+
+// ------------------------------------------------------------------------------------------------ case function
+
+fn case_fn(case: &Case) -> Report {
+    let mut rep = Report::new();
+    let t_exec = std::time::Instant::now();
+    let (st, info) = match execute(case) {
+        Ok(x) => x,
+        Err(e) => {
+            rep.label("harness-error");
+            rep.discard(format!("harness error: {e}"));
+            return rep;
+        }
+    };
+    if !info.harness_errors.is_empty() {
+        rep.label("harness-error");
+        rep.discard(format!("harness error: {:?}", info.harness_errors));
+        return rep;
+    }
+    let exec_s = t_exec.elapsed().as_secs_f64();
+    let t_judge = std::time::Instant::now();
+    let verdict = judge(&st, &info);
+    if std::env::var_os("C20_TIMING").is_some() {
+        eprintln!(
+            "case: execute {:.2}s judge {:.2}s steps {} sigs {}",
+            exec_s,
+            t_judge.elapsed().as_secs_f64(),
+            info.ticks,
+            st.sig_requests.len()
+        );
+    }
+    for l in &verdict.labels {
+        rep.label(l.clone());
+    }
+
+    // ---- coverage labels
+    let n_epochs = case.epochs.len();
+    let flat: Vec<&Op> = case.epochs.iter().flatten().collect();
+    let faults = flat.iter().filter(|o| o.is_fault()).count();
+    let restarts = flat.iter().filter(|o| matches!(o, Op::Restart)).count();
+    let gen_last_step = info.epilogue_first_step;
+    let in_history = |step: u32| step < gen_last_step;
+    if st.hits.down > 0 {
+        rep.label("fault-hit:agg-down");
+    }
+    if st.hits.stale > 0 {
+        rep.label("fault-hit:stale-epoch-settings");
+    }
+    if st.hits.round_closed > 0 {
+        rep.label("fault-hit:round-closed");
+    }
+    if st.hits.publish_fail > 0 {
+        rep.label("fault-hit:publish-fail");
+    }
+    if st.sig_requests.iter().any(|r| in_history(r.step) && r.status == 201) {
+        rep.label("signature-in-generated-history");
+    }
+    if st.sig_requests.iter().any(|r| in_history(r.step) && r.status == 201 && r.restarts_before > 0) {
+        rep.label("signature-after-restart-in-generated-history");
+    }
+    // a failed publication later followed by an acknowledged one for the same beacon
+    let mut failed: BTreeMap<String, u32> = BTreeMap::new();
+    for r in &st.sig_requests {
+        if let Some(m) = &r.message {
+            let k = format!("{:?}", m.signed_entity_type);
+            if r.status != 201 {
+                failed.entry(k).or_insert(r.step);
+            } else if let Some(fs) = failed.get(&k) {
+                rep.label(if *fs == r.step { "publish-retry-same-cycle-acked" } else { "publish-retry-later-cycle-acked" });
+            }
+        }
+    }
+    if info.restart_in_state.iter().take(restarts).any(|s| s == "ReadyToSign") {
+        rep.label("restart-in-ReadyToSign");
+    }
+    if info.restart_in_state.iter().take(restarts).any(|s| s == "Unregistered") {
+        rep.label("restart-in-Unregistered");
+    }
+    if info.restart_in_state.iter().take(restarts).any(|s| s == "RegisteredNotAbleToSign") {
+        rep.label("restart-in-RegisteredNotAbleToSign");
+    }
+    // an epoch of the generated history in which the signer missed its registration
+    for e in info.first_epoch..=info.last_generated_epoch {
+        if !sut_registered_during(&st, e as i64) && e < info.last_generated_epoch {
+            rep.label("epoch-without-registration");
+            break;
+        }
+    }
+    if st.registrations.iter().any(|r| !r.from_sut) {
+        rep.label("others-registered");
+    }
+    if !info.critical_errors.is_empty() {
+        rep.label("critical-error-restart");
+    }
+    if info.final_epoch > info.last_generated_epoch {
+        rep.label(format!("epilogue-extra-epochs:{}", info.final_epoch - info.last_generated_epoch));
+    } else {
+        rep.label("epilogue-extra-epochs:0");
+    }
+    rep.label(format!("epochs:{n_epochs}"));
+
+    if n_epochs >= 3 && (faults > 0 || restarts > 0) {
+        let shape: Vec<String> =
+            case.epochs.iter().map(|ops| ops.iter().map(|o| o.kind()).collect::<Vec<_>>().join("")).collect();
+        rep.nontrivial(shape.join("|"));
+    }
+
+    for (key, what) in verdict.violations {
+        if key == "harness-model" {
+            rep.label("harness-model-problem");
+        }
+        rep.violation(key, format!("{what} ;; case={}", serde_json::to_string(case).unwrap_or_default()));
+    }
+    rep
+}
+
+// ------------------------------------------------------------------------------------------------ entry point
+
+/// deterministic happy-path and canonical fault histories (validate the offset model on honest runs first)
+fn canonical_cases() -> Vec<Case> {
+    use Op::*;
+    let t = |n: usize| vec![Tick; n];
+    let mut v = vec![];
+    for start in [1u8, 4] {
+        for salt in [0u8, 1, 2, 7] {
+            // happy path, 5 epochs, everybody registers every epoch
+            let happy: Vec<Vec<Op>> = (0..5)
+                .map(|_| {
+                    let mut ops = vec![OthersRegister(7)];
+                    ops.extend(t(5));
+                    ops.push(ChainUp { immutables: 1, blocks: 45 });
+                    ops.extend(t(3));
+                    ops
+                })
+                .collect();
+            v.push(Case { start_epoch: start, salt, epochs: happy });
+            // only a subset of the others registers, changing every epoch; restarts in every epoch
+            let subset: Vec<Vec<Op>> = (0..5u8)
+                .map(|i| {
+                    let mut ops = vec![OthersRegister(1 + (i + salt) % 7)];
+                    ops.extend(t(3));
+                    ops.push(Restart);
+                    ops.extend(t(4));
+                    ops.push(ChainUp { immutables: 2, blocks: 20 });
+                    ops.push(PublishFail(1 + i % 3));
+                    ops.extend(t(4));
+                    ops
+                })
+                .collect();
+            v.push(Case { start_epoch: start, salt, epochs: subset });
+            // aggregator trouble right after each epoch change
+            let trouble: Vec<Vec<Op>> = (0..5u8)
+                .map(|i| {
+                    let mut ops = vec![
+                        match i % 3 {
+                            0 => AggDown(2 + i),
+                            1 => StaleEpochSettings(2),
+                            _ => RoundClosed(2),
+                        },
+                        OthersRegister(3),
+                    ];
+                    ops.extend(t(7));
+                    ops
+                })
+                .collect();
+            v.push(Case { start_epoch: start, salt, epochs: trouble });
+        }
+    }
+    v
+}
 
 pub fn run(args: &Args) -> i32 {
-    let check = Check::new("C20", "exploration", args);
-    check.inconclusive("check not implemented yet".into());
+    let mut check = Check::new("C20", "exploration", args);
+    check
+        .rule(
+            "history = 3..6 epochs x 2..9 ops (Tick, ChainUp, AggDown(n), StaleEpochSettings(n), RoundClosed(n), \
+             OthersRegister(subset), PublishFail(n), Restart; <= 40 ops) on the real signer + a healing epilogue \
+             (restart, healthy cycles, new beacon); non-trivial = >= 3 epochs and at least one fault op or restart; \
+             distinct by the sequence of op kinds per epoch",
+        )
+        .assume(
+            "trusted: mithril-stm / mithril-common crypto (SignerBuilder, MultiSigner, key registration) used by the \
+             oracle to verify; chain observer, immutable observer, block scanner, digester doubles of the repository; \
+             protocol offsets hard-coded in the harness: a registration received during epoch e carries label e+1 and \
+             is in the signer set of epoch e+2, protocol configuration key K is in force in epoch K+1",
+        )
+        .assume(
+            "phi_f = 1.0 in every served protocol configuration (every lottery won) so that no verdict depends on the \
+             signer's OS-random key material; crashes happen between state-machine cycles only (no mid-cycle kill); \
+             aggregator faults are 'request not processed' (no lost acknowledgements)",
+        )
+        .assume(
+            "clause (d) is checked in an epoch for which the signer's registrations were acknowledged during both \
+             e-2 (signing key) and e-1 (the signer derives the next protocol parameters from its own next initializer)",
+        )
+        .require_label("signature-in-generated-history")
+        .require_label("signature-after-restart-in-generated-history")
+        .require_label("fault-hit:agg-down")
+        .require_label("fault-hit:stale-epoch-settings")
+        .require_label("fault-hit:round-closed")
+        .require_label("fault-hit:publish-fail")
+        .require_label("publish-retry-same-cycle-acked")
+        .require_label("publish-retry-later-cycle-acked")
+        .require_label("restart-in-ReadyToSign")
+        .require_label("restart-in-Unregistered")
+        .require_label("epoch-without-registration")
+        .require_label("others-registered")
+        .require_label("verified:MithrilStakeDistribution")
+        .require_label("verified:CardanoStakeDistribution")
+        .require_label("verified:CardanoDatabase")
+        .require_label("verified:CardanoTransactions")
+        .shrink_iters(60);
+    // crypto fixtures (KES keys on disk) are created once, before any concurrent case runs
+    let _ = fixture();
+    let t = check.tier;
+    check.enumerate("canonical", canonical_cases().into_iter(), false, case_fn);
+    check.section("histories", case_strategy, t.pick(400, 12_000), case_fn);
     check.finish()
 }
